@@ -34,6 +34,38 @@ def offset_cases(run, rng, n):
     eval_simple(run, "offset", "offset_case_ok", coq, "correspondence:K2 Binning.offset_code == flox.core.offset_labels")
 
 
+def plumbing_cases(run, rng, max_dim, max_size, extra_random):
+    """K2, exhaustive: _collapse_axis(_move_reduce_dims_to_end(arr, axis), len(axis)) for EVERY shape of <= max_dim dims with sizes
+    1..max_size and EVERY non-empty ordered subset of its axes, on arr = arange(N).reshape(shape), vs NdShape.plumb"""
+    import itertools
+
+    import numpy as np
+
+    import flox.core as fc
+
+    coq = []
+    todo = []
+    for nd in range(1, max_dim + 1):
+        for shp in itertools.product(range(1, max_size + 1), repeat=nd):
+            for k in range(1, nd + 1):
+                for axis in itertools.permutations(range(nd), k):
+                    todo.append((shp, axis))
+    for _ in range(extra_random):      # larger / higher-dimensional random cases
+        nd = rng.randint(2, 5)
+        shp = tuple(rng.randint(1, 5) for _ in range(nd))
+        axis = tuple(rng.sample(range(nd), k=rng.randint(1, nd)))
+        todo.append((shp, axis))
+    for shp, axis in todo:
+        arr = np.arange(int(np.prod(shp))).reshape(shp)
+        out = fc._collapse_axis(fc._move_reduce_dims_to_end(arr, axis), len(axis))
+        run.count(f"plumb|{shp}|{axis}", len(axis) < len(shp))
+        nat = lambda xs: C.list_lit([f"{int(x)}%nat" for x in xs])  # noqa: E731
+        coq.append(f"({nat(shp)}, {nat(axis)}, {nat(out.shape)}, {C.list_lit([C.zlit(int(x)) for x in out.reshape(-1)])})")
+    run.extra["plumbing_cases (exhaustive shapes x ordered axis subsets + random)"] = len(todo)
+    eval_simple(run, "plumb", "plumb_case_ok", coq,
+                "correspondence:K2 NdShape.plumb == flox.core._collapse_axis(_move_reduce_dims_to_end(arr, axis), len(axis))")
+
+
 def oracle_nd(func, vals, labels, axis, ngroups):
     """slice-by-slice evaluation: for every index of the kept dims, NumPy reduction per group of the 1-D slice"""
     import numpy as np
@@ -199,14 +231,17 @@ def run(run: C.Run):
     P.front(run, translators=())
     thorough = run.tier == "thorough"
     offset_cases(run, rng, 4000 if thorough else 800)
+    plumbing_cases(run, rng, 4, 3 if thorough else 2, 1500 if thorough else 300)
     nd_cases(run, rng, 5000 if thorough else 700, 3)
     xr_nd_cases(run, rng, 1500 if thorough else 250)
     if any(not o[1] for o in run.obligations) and not run.violations:
         run.violation({"property": "C08", "kind": "proof obligation / correspondence no longer checks",
                        "failed": P.failed_obligations(run)}, nofail=True, tag="obligation")
-    run.assumptions.append("the transposition / squeeze plumbing beyond the flattened (rows x reduced) form is validated by K3, not proved")
+    run.assumptions.append("numpy's transpose / C-order reshape are modelled by NdShape.v (index arithmetic), validated by the exhaustive K2 plumbing suite; "
+                           "the squeeze of dummy axes, the broadcasting of size-1 label axes and the batch (leading) dimensions handled inside the kernels are validated by K3, not proved")
     run.cov["rule"] = (
-        "K2: offset_labels on random (rows x n) code arrays vs the Coq offset model; K3: value arrays of 1-4 dims (sizes 1-3), label "
+        "K2: offset_labels on random (rows x n) code arrays vs the Coq offset model; K2 plumbing: every shape of <= 4 dims (sizes <= 2 quick / 3 "
+        "thorough) x every ordered non-empty subset of axes + random shapes up to 5 dims vs NdShape.plumb (exact); K3: value arrays of 1-4 dims (sizes 1-3), label "
         "arrays of 1-3 dims (incl. size-1 broadcasting axes), every kind of axis argument (single int, tuples, negative, any order, "
         "proper subsets of the label dims), eager and dask chunked along every axis, engines numpy/flox, 9 reductions, missing labels "
         "spread unevenly; compared (shape and every entry) with the slice-by-slice NumPy evaluation; non-trivial = a kept label "
